@@ -1,10 +1,730 @@
-(* Proofs about the SpiNN-5 board geometry model (property C19). *)
-From Coq Require Import ZArith List Bool Lia.
+(* Proofs about the SpiNN-5 board geometry model (property C19).
+   The finite facts about the dumped tables are closed by vm_compute over the 12 x 12 cell / the 8 x 8
+   bounding box of the board (the bound is part of the statement) and lifted to all integers by the
+   mod-12 lemmas proved here. *)
+From Coq Require Import ZArith List Bool Lia FinFun.
 Require Import Rig.Generated.GenBoardTables Rig.Generated.GenBoard Rig.Model.Base Rig.Model.Board Rig.Spec.Board.
 Import ListNotations.
 Open Scope Z_scope.
+Ltac Zify.zify_post_hook ::= Z.to_euclidean_division_equations.
 
-(* The dumped array is 12 x 12: the kernels' `% 12` indices always hit a real cell. *)
+
 Lemma eth_table_is_12x12 :
   length SPINN5_ETH_OFFSET = 12%nat /\ Forall (fun r => length r = 12%nat) SPINN5_ETH_OFFSET.
 Proof. split; [reflexivity | repeat constructor]. Qed.
+
+(* ------------------------------------------------------------------ enumeration helpers *)
+Lemma In_zseq : forall n u, 0 <= u < n -> In u (zseq n).
+Proof.
+  intros n u Hu. unfold zseq. apply in_map_iff. exists (Z.to_nat u). split; [lia|].
+  apply in_seq. lia.
+Qed.
+
+Lemma board_shapeb_spec : forall dx dy, board_shapeb dx dy = true <-> board_shape dx dy.
+Proof.
+  intros dx dy. unfold board_shapeb, board_shape. rewrite !andb_true_iff, !Z.leb_le. lia.
+Qed.
+
+Lemma In_eth_offsets : forall d, In d eth_offsets -> d = (0, 0) \/ d = (4, 8) \/ d = (8, 4).
+Proof. intros d H. unfold eth_offsets in H. simpl in H. intuition. Qed.
+
+(* ------------------------------------------------------------------ the tiling is a partition *)
+Lemma board_eth_unique : forall root c e1 e2, board_eth root c e1 -> board_eth root c e2 -> e1 = e2.
+Proof.
+  intros [rx ry] [x y] [a1 b1] [a2 b2] [He1 Hb1] [He2 Hb2].
+  destruct He1 as (i1 & j1 & d1 & Hd1 & Hx1 & Hy1).
+  destruct He2 as (i2 & j2 & d2 & Hd2 & Hx2 & Hy2).
+  unfold on_board, board_shape in Hb1, Hb2. cbn [fst snd] in *.
+  apply In_eth_offsets in Hd1. apply In_eth_offsets in Hd2.
+  destruct Hd1 as [-> | [-> | ->]]; destruct Hd2 as [-> | [-> | ->]]; cbn [fst snd] in *;
+    f_equal; lia.
+Qed.
+
+(* the finite fact about the dumped table: for each cell (u, v) of the 12 x 12 array the stored offset
+   leads, within the board's shape, to a point congruent mod 12 to one of the three Ethernet positions *)
+Definition cell_okb (u v : Z) : bool :=
+  let '(ox, oy) := SPINN5_ETH_OFFSET_at v u in
+  board_shapeb (- ox) (- oy) &&
+  existsb (fun d => ((u + ox - fst d) mod 12 =? 0) && ((v + oy - snd d) mod 12 =? 0)) eth_offsets.
+
+Lemma cell_all_ok : forallb (fun u => forallb (fun v => cell_okb u v) (zseq 12)) (zseq 12) = true.
+Proof. vm_compute. reflexivity. Qed.
+
+Lemma cell_ok : forall u v, 0 <= u < 12 -> 0 <= v < 12 -> cell_okb u v = true.
+Proof.
+  intros u v Hu Hv. pose proof cell_all_ok as H. rewrite forallb_forall in H.
+  specialize (H u (In_zseq _ _ Hu)). rewrite forallb_forall in H. exact (H v (In_zseq _ _ Hv)).
+Qed.
+
+(* the table offset for chip (x, y) with the root at (rx, ry), as both kernels compute it *)
+Definition eth_off (x y rx ry : Z) : Z * Z :=
+  SPINN5_ETH_OFFSET_at ((y - ry) mod 12) ((x - rx) mod 12).
+
+Definition plane_eth (root c : chip) : chip :=
+  (fst c + fst (eth_off (fst c) (snd c) (fst root) (snd root)),
+   snd c + snd (eth_off (fst c) (snd c) (fst root) (snd root))).
+
+Lemma plane_eth_is_board_eth : forall root c, board_eth root c (plane_eth root c).
+Proof.
+  intros [rx ry] [x y]. unfold plane_eth, eth_off. cbn [fst snd].
+  assert (Hu : 0 <= (x - rx) mod 12 < 12) by (apply Z.mod_pos_bound; lia).
+  assert (Hv : 0 <= (y - ry) mod 12 < 12) by (apply Z.mod_pos_bound; lia).
+  pose proof (cell_ok _ _ Hu Hv) as Hc. unfold cell_okb in Hc.
+  destruct (SPINN5_ETH_OFFSET_at ((y - ry) mod 12) ((x - rx) mod 12)) as [ox oy].
+  apply andb_true_iff in Hc. destruct Hc as [Hs He].
+  apply board_shapeb_spec in Hs. apply existsb_exists in He.
+  destruct He as (d & Hd & Hm). apply andb_true_iff in Hm. destruct Hm as [Hmx Hmy].
+  apply Z.eqb_eq in Hmx. apply Z.eqb_eq in Hmy. cbn [fst snd].
+  split.
+  - exists ((x + ox - rx - fst d) / 12), ((y + oy - ry - snd d) / 12), d.
+    split; [exact Hd|]. cbn [fst snd].
+    apply In_eth_offsets in Hd. destruct Hd as [-> | [-> | ->]]; cbn [fst snd] in *; lia.
+  - unfold on_board. cbn [fst snd].
+    replace (x - (x + ox)) with (- ox) by lia. replace (y - (y + oy)) with (- oy) by lia. exact Hs.
+Qed.
+
+Theorem tiling_partition : forall root c, exists! e, board_eth root c e.
+Proof.
+  intros root c. exists (plane_eth root c). split.
+  - apply plane_eth_is_board_eth.
+  - intros e' He'. eapply board_eth_unique; [apply plane_eth_is_board_eth | exact He'].
+Qed.
+
+Lemma board_eth_is_plane_eth : forall root c e, board_eth root c e -> e = plane_eth root c.
+Proof. intros root c e H. eapply board_eth_unique; [exact H | apply plane_eth_is_board_eth]. Qed.
+
+(* ------------------------------------------------------------------ the two kernels *)
+Lemma local_eth_model : forall x y w h rx ry, w <> 0 -> h <> 0 ->
+  spinn5_local_eth_coord x y w h rx ry = Ok (wrap w h (plane_eth (rx, ry) (x, y))).
+Proof.
+  intros x y w h rx ry Hw Hh. unfold spinn5_local_eth_coord.
+  destruct (w =? 0) eqn:Ew; [apply Z.eqb_eq in Ew; contradiction|].
+  destruct (h =? 0) eqn:Eh; [apply Z.eqb_eq in Eh; contradiction|].
+  cbn [orb]. unfold spinn5_local_eth_coord_k, plane_eth, eth_off, wrap. cbn [fst snd].
+  destruct (SPINN5_ETH_OFFSET_at ((y - ry) mod 12) ((x - rx) mod 12)) as [ox oy]. reflexivity.
+Qed.
+
+Lemma local_eth_zero_dim : forall x y w h rx ry, w = 0 \/ h = 0 ->
+  spinn5_local_eth_coord x y w h rx ry = OtherError.
+Proof.
+  intros x y w h rx ry H. unfold spinn5_local_eth_coord.
+  destruct H as [-> | ->]; [reflexivity|]. rewrite orb_true_r. reflexivity.
+Qed.
+
+Lemma chip_coord_model : forall x y rx ry,
+  spinn5_chip_coord x y rx ry =
+  Ok (x - fst (plane_eth (rx, ry) (x, y)), y - snd (plane_eth (rx, ry) (x, y))).
+Proof.
+  intros x y rx ry. unfold spinn5_chip_coord, spinn5_chip_coord_k, plane_eth, eth_off. cbn [fst snd].
+  destruct (SPINN5_ETH_OFFSET_at ((y - ry) mod 12) ((x - rx) mod 12)) as [ox oy]. cbn [fst snd].
+  f_equal. f_equal; lia.
+Qed.
+
+Theorem local_eth_is_wrapped_board_eth : forall x y w h rx ry e, w <> 0 -> h <> 0 ->
+  board_eth (rx, ry) (x, y) e -> spinn5_local_eth_coord x y w h rx ry = Ok (wrap w h e).
+Proof.
+  intros x y w h rx ry e Hw Hh He. rewrite (board_eth_is_plane_eth _ _ _ He).
+  apply local_eth_model; assumption.
+Qed.
+
+Theorem local_eth_ragged : forall x y w h rx ry e,
+  board_eth (rx, ry) (x, y) e -> in_machine w h e -> spinn5_local_eth_coord x y w h rx ry = Ok e.
+Proof.
+  intros x y w h rx ry [ex ey] He [Hx Hy]. cbn [fst snd] in Hx, Hy.
+  rewrite (local_eth_is_wrapped_board_eth x y w h rx ry (ex, ey)); [|lia|lia|exact He].
+  unfold wrap. cbn [fst snd]. rewrite !Z.mod_small by lia. reflexivity.
+Qed.
+
+Theorem chip_coord_is_offset : forall x y rx ry e, board_eth (rx, ry) (x, y) e ->
+  spinn5_chip_coord x y rx ry = Ok (x - fst e, y - snd e).
+Proof.
+  intros x y rx ry e He. rewrite (board_eth_is_plane_eth _ _ _ He). apply chip_coord_model.
+Qed.
+
+Theorem chip_coord_on_board : forall x y rx ry, exists bx by_,
+  spinn5_chip_coord x y rx ry = Ok (bx, by_) /\ board_shape bx by_.
+Proof.
+  intros x y rx ry. eexists _, _. split; [apply chip_coord_model|].
+  destruct (plane_eth_is_board_eth (rx, ry) (x, y)) as [_ Hb]. exact Hb.
+Qed.
+
+
+(* ------------------------------------------------------------------ the torus *)
+Lemma multiple_of_12 : forall w, w mod 12 = 0 -> exists b, w = 12 * b.
+Proof. intros w H. exists (w / 12). lia. Qed.
+
+(* Ethernet positions are invariant under shifts by whole machine widths / heights *)
+Lemma is_eth_shift : forall root e w h k l, w mod 12 = 0 -> h mod 12 = 0 ->
+  is_eth root e -> is_eth root (fst e + w * k, snd e + h * l).
+Proof.
+  intros [rx ry] [ex ey] w h k l Hw Hh (i & j & d & Hd & Hx & Hy). cbn [fst snd] in *.
+  destruct (multiple_of_12 _ Hw) as [bw ->]. destruct (multiple_of_12 _ Hh) as [bh ->].
+  exists (i + bw * k), (j + bh * l), d. split; [exact Hd|]. cbn [fst snd]. split; lia.
+Qed.
+
+Lemma is_eth_wrap : forall root e w h, w mod 12 = 0 -> h mod 12 = 0 ->
+  is_eth root e -> is_eth root (wrap w h e).
+Proof.
+  intros root [ex ey] w h Hw Hh He. unfold wrap. cbn [fst snd].
+  pose proof (is_eth_shift root (ex, ey) w h (- (ex / w)) (- (ey / h)) Hw Hh He) as H.
+  cbn [fst snd] in H.
+  replace (ex mod w) with (ex + w * - (ex / w)) by (pose proof (Z_div_mod_eq_full ex w); nia).
+  replace (ey mod h) with (ey + h * - (ey / h)) by (pose proof (Z_div_mod_eq_full ey h); nia).
+  exact H.
+Qed.
+
+Lemma board_shape_bound : forall dx dy, board_shape dx dy -> 0 <= dx <= 7 /\ 0 <= dy <= 7.
+Proof. unfold board_shape. intros; lia. Qed.
+
+(* on a torus at least 12 wide and high, the wrapped offset from the wrapped Ethernet chip is the plane offset *)
+Lemma on_board_wrap : forall w h e c, 12 <= w -> 12 <= h ->
+  on_board e c -> on_board_torus w h (wrap w h e) c.
+Proof.
+  intros w h [ex ey] [x y] Hw Hh Hb. unfold on_board in Hb. unfold on_board_torus, wrap. cbn [fst snd] in *.
+  destruct (board_shape_bound _ _ Hb) as [Hx Hy].
+  rewrite (Zminus_mod_idemp_r x ex w), (Zminus_mod_idemp_r y ey h).
+  rewrite (Z.mod_small (x - ex) w) by lia. rewrite (Z.mod_small (y - ey) h) by lia. exact Hb.
+Qed.
+
+Lemma full_torus_ge_12 : forall w h, full_torus w h -> 12 <= w /\ 12 <= h.
+Proof. unfold full_torus. intros w h H. lia. Qed.
+
+Theorem local_eth_is_board_eth_torus : forall w h rx ry x y,
+  full_torus w h -> in_machine w h (x, y) ->
+  exists e, spinn5_local_eth_coord x y w h rx ry = Ok e /\
+            in_machine w h e /\ is_eth (rx, ry) e /\ on_board_torus w h e (x, y) /\
+            (forall e', in_machine w h e' -> is_eth (rx, ry) e' -> on_board_torus w h e' (x, y) -> e' = e).
+Proof.
+  intros w h rx ry x y Ht Hc.
+  destruct (full_torus_ge_12 _ _ Ht) as [Hw12 Hh12].
+  destruct Ht as (Hw & Hh & Hwm & Hhm).
+  pose proof (plane_eth_is_board_eth (rx, ry) (x, y)) as Hp.
+  set (p := plane_eth (rx, ry) (x, y)) in *.
+  exists (wrap w h p). split; [apply local_eth_model; lia|].
+  destruct Hp as [Hpe Hpb].
+  split; [|split; [|split]].
+  - unfold in_machine, wrap. cbn [fst snd]. split; apply Z.mod_pos_bound; lia.
+  - apply is_eth_wrap; assumption.
+  - apply on_board_wrap; assumption.
+  - intros [ex' ey'] [Hx' Hy'] He' Hb'. cbn [fst snd] in Hx', Hy'.
+    unfold on_board_torus in Hb'. cbn [fst snd] in Hb'.
+    (* lift e' to the plane: the chip at the wrapped offset below c *)
+    set (dx := (x - ex') mod w) in *. set (dy := (y - ey') mod h) in *.
+    assert (Hlift : board_eth (rx, ry) (x, y) (ex' + w * ((x - ex') / w), ey' + h * ((y - ey') / h))).
+    { split.
+      - exact (is_eth_shift (rx, ry) (ex', ey') w h _ _ Hwm Hhm He').
+      - unfold on_board. cbn [fst snd].
+        replace (x - (ex' + w * ((x - ex') / w))) with dx.
+        2:{ unfold dx. rewrite Z.mod_eq; [ring | lia]. }
+        replace (y - (ey' + h * ((y - ey') / h))) with dy
+          by (unfold dy; rewrite Z.mod_eq; [ring | lia]).
+        exact Hb'. }
+    apply board_eth_is_plane_eth in Hlift. fold p in Hlift. rewrite <- Hlift.
+    unfold wrap. cbn [fst snd]. f_equal.
+    + rewrite Z.mul_comm, Z_mod_plus_full. symmetry. apply Z.mod_small. lia.
+    + rewrite Z.mul_comm, Z_mod_plus_full. symmetry. apply Z.mod_small. lia.
+Qed.
+
+
+(* ------------------------------------------------------------------ list lemmas *)
+Lemma NoDup_app_intro : forall {A} (l1 l2 : list A),
+  NoDup l1 -> NoDup l2 -> (forall x, In x l1 -> ~ In x l2) -> NoDup (l1 ++ l2).
+Proof.
+  intros A l1. induction l1 as [|a l1 IH]; intros l2 H1 H2 Hd; [exact H2|].
+  simpl. inversion H1 as [|? ? Hna Hnd]; subst. constructor.
+  - rewrite in_app_iff. intros [H|H]; [contradiction | exact (Hd a (or_introl eq_refl) H)].
+  - apply IH; auto. intros x Hx. apply Hd. right; exact Hx.
+Qed.
+
+Lemma NoDup_flat_map : forall {A B} (f : A -> list B) (l : list A),
+  NoDup l -> (forall a, In a l -> NoDup (f a)) ->
+  (forall a1 a2 b, In a1 l -> In a2 l -> In b (f a1) -> In b (f a2) -> a1 = a2) ->
+  NoDup (flat_map f l).
+Proof.
+  intros A B f l. induction l as [|a l IH]; intros Hl Hf Hd; simpl; [constructor|].
+  inversion Hl as [|? ? Hna Hnd]; subst. apply NoDup_app_intro.
+  - apply Hf; left; reflexivity.
+  - apply IH; auto.
+    + intros; apply Hf; right; auto.
+    + intros a1 a2 b Ha1 Ha2. apply Hd; right; auto.
+  - intros b Hb Hb2. apply in_flat_map in Hb2. destruct Hb2 as (a' & Ha' & Hb').
+    assert (a = a') by (eapply Hd; [left; reflexivity | right; exact Ha' | exact Hb | exact Hb']).
+    subst. contradiction.
+Qed.
+
+(* ------------------------------------------------------------------ range(0, stop, 12) *)
+Lemma In_range12 : forall stop X, In X (range12 stop) <-> 0 <= X < stop /\ X mod 12 = 0.
+Proof.
+  intros stop X. unfold range12. rewrite in_map_iff. split.
+  - intros (i & <- & Hi). apply in_seq in Hi. lia.
+  - intros [Hr Hm]. exists (Z.to_nat (X / 12)). split; [lia|]. apply in_seq. lia.
+Qed.
+
+Lemma NoDup_range12 : forall stop, NoDup (range12 stop).
+Proof.
+  intros stop. unfold range12. apply FinFun.Injective_map_NoDup; [intros a b H; lia | apply seq_NoDup].
+Qed.
+
+Definition up12 (n : Z) : Z := (n + 11) / 12 * 12.
+
+Lemma up12_spec : forall n, up12 n mod 12 = 0 /\ n <= up12 n < n + 12.
+Proof. intros n. unfold up12. lia. Qed.
+
+(* ------------------------------------------------------------------ arithmetic of one coordinate *)
+Lemma mod12_of_mod : forall a b, 0 < b -> b mod 12 = 0 -> a mod 12 = 0 -> (a mod b) mod 12 = 0.
+Proof.
+  intros a b Hb Hbm Ham.
+  destruct (multiple_of_12 _ Hbm) as [b' ->]. destruct (multiple_of_12 _ Ham) as [a' ->].
+  rewrite Z.mul_mod_distr_l by lia. rewrite Z.mul_comm. apply Z.mod_mul. lia.
+Qed.
+
+Lemma wrap_coord_eth : forall W X d r rx,
+  0 < W -> W mod 12 = 0 -> X mod 12 = 0 -> (r - rx) mod 12 = 0 ->
+  exists i, (X + d + r) mod W = rx + 12 * i + d.
+Proof.
+  intros W X d r rx HW HWm HXm Hr.
+  destruct (multiple_of_12 _ HWm) as [b ->]. destruct (multiple_of_12 _ HXm) as [a ->].
+  destruct (multiple_of_12 _ Hr) as [c Hc].
+  rewrite Z.mod_eq by lia. set (q := (12 * a + d + r) / (12 * b)).
+  exists (a + c - b * q). replace r with (rx + 12 * c) by lia. ring.
+Qed.
+
+Lemma eth_coord_preimage : forall W d r ex,
+  0 < W -> W mod 12 = 0 -> 0 <= ex < W -> (ex - d - r) mod 12 = 0 ->
+  0 <= (ex - d - r) mod W < W /\ ((ex - d - r) mod W) mod 12 = 0 /\
+  ((ex - d - r) mod W + d + r) mod W = ex.
+Proof.
+  intros W d r ex HW HWm Hex Hm. split; [apply Z.mod_pos_bound; lia|]. split.
+  - apply mod12_of_mod; assumption.
+  - replace ((ex - d - r) mod W + d + r) with ((ex - d - r) mod W + (d + r)) by ring.
+    rewrite Zplus_mod_idemp_l. replace (ex - d - r + (d + r)) with ex by ring.
+    apply Z.mod_small. exact Hex.
+Qed.
+
+Lemma eth_coord_inj : forall W X1 X2 d1 d2 r,
+  0 < W -> W mod 12 = 0 -> 0 <= X1 < W -> X1 mod 12 = 0 -> 0 <= X2 < W -> X2 mod 12 = 0 ->
+  (d1 = 0 \/ d1 = 4 \/ d1 = 8) -> (d2 = 0 \/ d2 = 4 \/ d2 = 8) ->
+  (X1 + d1 + r) mod W = (X2 + d2 + r) mod W -> X1 = X2 /\ d1 = d2.
+Proof.
+  intros W X1 X2 d1 d2 r HW HWm HX1 HX1m HX2 HX2m Hd1 Hd2 Heq.
+  destruct (multiple_of_12 _ HWm) as [b ->].
+  destruct (multiple_of_12 _ HX1m) as [a1 ->]. destruct (multiple_of_12 _ HX2m) as [a2 ->].
+  rewrite !Z.mod_eq in Heq by lia.
+  set (q1 := (12 * a1 + d1 + r) / (12 * b)) in *. set (q2 := (12 * a2 + d2 + r) / (12 * b)) in *.
+  clearbody q1 q2.
+  assert (Hd : d1 = d2) by lia.
+  split; [|exact Hd]. subst d2.
+  assert (Hq : a1 - a2 = b * (q1 - q2)) by lia.
+  assert (Hz : q1 - q2 = 0) by nia.
+  nia.
+Qed.
+
+
+(* the body of the innermost loop of spinn5_eth_coords *)
+Definition eth_cell (width height W H r ry X Y : Z) (d : Z * Z) : list (Z * Z) :=
+  if ((X + fst d + r) mod W <? width) && ((Y + snd d + ry) mod H <? height)
+  then [((X + fst d + r) mod W, (Y + snd d + ry) mod H)] else [].
+
+Lemma eth_coords_unfold : forall width height rx ry,
+  spinn5_eth_coords width height rx ry =
+  flat_map (fun X => flat_map (fun Y =>
+      flat_map (eth_cell width height (up12 width) (up12 height) (rx mod 12 mod 12) ry X Y) eth_loop_offsets)
+    (range12 (up12 height))) (range12 (up12 width)).
+Proof. reflexivity. Qed.
+
+Lemma In_eth_cell : forall width height W H r ry X Y d e,
+  In e (eth_cell width height W H r ry X Y d) <->
+  e = ((X + fst d + r) mod W, (Y + snd d + ry) mod H) /\ fst e < width /\ snd e < height.
+Proof.
+  intros width height W H r ry X Y d e. unfold eth_cell.
+  destruct ((X + fst d + r) mod W <? width) eqn:E1; destruct ((Y + snd d + ry) mod H <? height) eqn:E2;
+    cbn [andb In]; try apply Z.ltb_lt in E1; try apply Z.ltb_lt in E2;
+    try apply Z.ltb_ge in E1; try apply Z.ltb_ge in E2.
+  - split.
+    + intros [<- | []]. cbn [fst snd]. auto.
+    + intros (-> & _). left; reflexivity.
+  - split; [intros [] | intros (-> & _ & H2); cbn [snd] in H2; lia].
+  - split; [intros [] | intros (-> & H1 & _); cbn [fst] in H1; lia].
+  - split; [intros [] | intros (-> & H1 & _); cbn [fst] in H1; lia].
+Qed.
+
+Lemma NoDup_eth_cell : forall width height W H r ry X Y d, NoDup (eth_cell width height W H r ry X Y d).
+Proof.
+  intros. unfold eth_cell. destruct (_ && _); [|constructor].
+  constructor; [intros []|constructor].
+Qed.
+
+Lemma In_loop_offsets : forall d, In d eth_loop_offsets ->
+  (d = (0, 0) \/ d = (4, 8) \/ d = (8, 4)) /\ In d eth_offsets.
+Proof. intros d H. split; [|exact H]. unfold eth_loop_offsets in H. simpl in H. intuition. Qed.
+
+Lemma NoDup_loop_offsets : NoDup eth_loop_offsets.
+Proof.
+  unfold eth_loop_offsets. repeat constructor; simpl; intuition congruence.
+Qed.
+
+Lemma root_reduced_twice : forall rx, (rx mod 12 mod 12 - rx) mod 12 = 0.
+Proof. intros rx. lia. Qed.
+
+Lemma loop_offset_components : forall d, In d eth_loop_offsets ->
+  (fst d = 0 \/ fst d = 4 \/ fst d = 8) /\ (snd d = 0 \/ snd d = 4 \/ snd d = 8).
+Proof. intros d H. apply In_loop_offsets in H. destruct H as [[-> | [-> | ->]] _]; cbn [fst snd]; lia. Qed.
+
+Lemma loop_offset_by_fst : forall d1 d2, In d1 eth_loop_offsets -> In d2 eth_loop_offsets ->
+  fst d1 = fst d2 -> d1 = d2.
+Proof.
+  intros d1 d2 H1 H2 Hf. apply In_loop_offsets in H1. apply In_loop_offsets in H2.
+  destruct H1 as [[-> | [-> | ->]] _]; destruct H2 as [[-> | [-> | ->]] _]; cbn [fst] in Hf;
+    try reflexivity; discriminate Hf.
+Qed.
+
+Lemma eth_coord_inj_fst : forall W X1 X2 d1 d2 r,
+  W mod 12 = 0 -> 0 <= X1 < W /\ X1 mod 12 = 0 -> 0 <= X2 < W /\ X2 mod 12 = 0 ->
+  In d1 eth_loop_offsets -> In d2 eth_loop_offsets ->
+  (X1 + fst d1 + r) mod W = (X2 + fst d2 + r) mod W -> X1 = X2 /\ fst d1 = fst d2.
+Proof.
+  intros W X1 X2 d1 d2 r HWm [HX1 HX1m] [HX2 HX2m] Hd1 Hd2 Heq.
+  apply (eth_coord_inj W X1 X2 (fst d1) (fst d2) r); try assumption; try lia.
+  - apply loop_offset_components; assumption.
+  - apply loop_offset_components; assumption.
+Qed.
+
+Lemma eth_coord_inj_snd : forall W X1 X2 d1 d2 r,
+  W mod 12 = 0 -> 0 <= X1 < W /\ X1 mod 12 = 0 -> 0 <= X2 < W /\ X2 mod 12 = 0 ->
+  In d1 eth_loop_offsets -> In d2 eth_loop_offsets ->
+  (X1 + snd d1 + r) mod W = (X2 + snd d2 + r) mod W -> X1 = X2 /\ snd d1 = snd d2.
+Proof.
+  intros W X1 X2 d1 d2 r HWm [HX1 HX1m] [HX2 HX2m] Hd1 Hd2 Heq.
+  apply (eth_coord_inj W X1 X2 (snd d1) (snd d2) r); try assumption; try lia.
+  - apply loop_offset_components; assumption.
+  - apply loop_offset_components; assumption.
+Qed.
+
+Theorem eth_coords_exact : forall width height rx ry,
+  NoDup (spinn5_eth_coords width height rx ry) /\
+  forall e, In e (spinn5_eth_coords width height rx ry) <->
+            (in_machine width height e /\ is_eth (rx, ry) e).
+Proof.
+  intros width height rx ry. rewrite eth_coords_unfold.
+  destruct (up12_spec width) as [HWm HWb]. destruct (up12_spec height) as [HHm HHb].
+  set (W := up12 width) in *. set (H := up12 height) in *. set (r := rx mod 12 mod 12).
+  pose proof (root_reduced_twice rx) as Hr. fold r in Hr.
+  assert (Hry : (ry - ry) mod 12 = 0) by (rewrite Z.sub_diag; reflexivity).
+  split.
+  - (* each Ethernet chip once *)
+    apply NoDup_flat_map; [apply NoDup_range12 | |].
+    + intros X HX. apply NoDup_flat_map; [apply NoDup_range12 | |].
+      * intros Y HY. apply NoDup_flat_map; [apply NoDup_loop_offsets | intros; apply NoDup_eth_cell |].
+        intros d1 d2 b Hd1 Hd2 Hb1 Hb2.
+        apply In_eth_cell in Hb1. apply In_eth_cell in Hb2.
+        destruct Hb1 as (-> & _). destruct Hb2 as (Hb2 & _).
+        apply In_range12 in HX. apply In_range12 in HY.
+        injection Hb2 as Hbx Hby.
+        apply loop_offset_by_fst; [assumption | assumption |].
+        exact (proj2 (eth_coord_inj_fst W X X d1 d2 r HWm HX HX Hd1 Hd2 Hbx)).
+      * intros Y1 Y2 b HY1 HY2 Hb1 Hb2.
+        apply in_flat_map in Hb1. destruct Hb1 as (d1 & Hd1 & Hb1).
+        apply in_flat_map in Hb2. destruct Hb2 as (d2 & Hd2 & Hb2).
+        apply In_eth_cell in Hb1. apply In_eth_cell in Hb2.
+        destruct Hb1 as (-> & _). destruct Hb2 as (Hb2 & _).
+        apply In_range12 in HY1. apply In_range12 in HY2.
+        injection Hb2 as _ Hby.
+        exact (proj1 (eth_coord_inj_snd H Y1 Y2 d1 d2 ry HHm HY1 HY2 Hd1 Hd2 Hby)).
+    + intros X1 X2 b HX1 HX2 Hb1 Hb2.
+      apply in_flat_map in Hb1. destruct Hb1 as (Y1 & HY1 & Hb1).
+      apply in_flat_map in Hb2. destruct Hb2 as (Y2 & HY2 & Hb2).
+      apply in_flat_map in Hb1. destruct Hb1 as (d1 & Hd1 & Hb1).
+      apply in_flat_map in Hb2. destruct Hb2 as (d2 & Hd2 & Hb2).
+      apply In_eth_cell in Hb1. apply In_eth_cell in Hb2.
+      destruct Hb1 as (-> & _). destruct Hb2 as (Hb2 & _).
+      apply In_range12 in HX1. apply In_range12 in HX2.
+      injection Hb2 as Hbx _.
+      exact (proj1 (eth_coord_inj_fst W X1 X2 d1 d2 r HWm HX1 HX2 Hd1 Hd2 Hbx)).
+  - (* exactly the Ethernet chips inside the machine *)
+    intros [ex ey]. split.
+    + intros Hin.
+      apply in_flat_map in Hin. destruct Hin as (X & HX & Hin).
+      apply in_flat_map in Hin. destruct Hin as (Y & HY & Hin).
+      apply in_flat_map in Hin. destruct Hin as (d & Hd & Hin).
+      apply In_eth_cell in Hin. destruct Hin as (He & Hlx & Hly). cbn [fst snd] in Hlx, Hly.
+      apply In_range12 in HX. apply In_range12 in HY.
+      injection He as Hex Hey.
+      destruct (wrap_coord_eth W X (fst d) r rx) as [i Hi]; try lia.
+      destruct (wrap_coord_eth H Y (snd d) ry ry) as [j Hj]; try lia.
+      split.
+      * unfold in_machine. cbn [fst snd].
+        pose proof (Z.mod_pos_bound (X + fst d + r) W). pose proof (Z.mod_pos_bound (Y + snd d + ry) H). lia.
+      * exists i, j, d. split; [apply In_loop_offsets in Hd; apply Hd|]. cbn [fst snd]. split; congruence.
+    + intros [[Hx Hy] (i & j & d & Hd & Hex & Hey)]. cbn [fst snd] in *.
+      assert (Hmx : (ex - fst d - r) mod 12 = 0) by (subst ex; unfold r; lia).
+      assert (Hmy : (ey - snd d - ry) mod 12 = 0) by (subst ey; lia).
+      destruct (eth_coord_preimage W (fst d) r ex) as (HXr & HXm & HXe); try lia.
+      destruct (eth_coord_preimage H (snd d) ry ey) as (HYr & HYm & HYe); try lia.
+      apply in_flat_map. exists ((ex - fst d - r) mod W). split; [apply In_range12; split; assumption|].
+      apply in_flat_map. exists ((ey - snd d - ry) mod H). split; [apply In_range12; split; assumption|].
+      apply in_flat_map. exists d. split; [exact Hd|].
+      apply In_eth_cell. rewrite HXe, HYe. cbn [fst snd]. split; [reflexivity | lia].
+Qed.
+
+
+(* ------------------------------------------------------------------ FPGA links *)
+Lemma key3_eqb_eq : forall a b, key3_eqb a b = true <-> a = b.
+Proof.
+  intros [[a1 a2] a3] [[b1 b2] b3]. unfold key3_eqb. rewrite !andb_true_iff, !Z.eqb_eq.
+  split; [intros [[-> ->] ->]; reflexivity | intros H; injection H; auto].
+Qed.
+
+Lemma fpga_get_Some_In : forall k v l, fpga_get k l = Some v -> In (k, v) l.
+Proof.
+  intros k v l. induction l as [|[k' v'] l IH]; cbn [fpga_get]; [discriminate|].
+  destruct (key3_eqb k k') eqn:E.
+  - intros H. injection H as <-. apply key3_eqb_eq in E. subst. left; reflexivity.
+  - intros H. right. apply IH. exact H.
+Qed.
+
+Definition is_some {A} (o : option A) : bool := match o with Some _ => true | None => false end.
+
+(* per board position (bx, by) inside the shape and link l in 0..5: an entry exists iff the neighbour
+   across the link is outside the shape *)
+Definition fpga_cellb (bx by_ l : Z) : bool :=
+  match link_vector l with
+  | Some (vx, vy) => Bool.eqb (is_some (fpga_get (bx, by_, l) SPINN5_FPGA_LINKS))
+                              (negb (board_shapeb (bx + vx) (by_ + vy)))
+  | None => false
+  end.
+
+Lemma fpga_cells_ok :
+  forallb (fun bx => forallb (fun by_ =>
+      implb (board_shapeb bx by_) (forallb (fpga_cellb bx by_) (zseq 6))) (zseq 8)) (zseq 8) = true.
+Proof. vm_compute. reflexivity. Qed.
+
+(* every key of the dictionary is a real link number *)
+Lemma fpga_keys_are_links :
+  forallb (fun p => let '(_, _, l) := fst p in (0 <=? l) && (l <=? 5)) SPINN5_FPGA_LINKS = true.
+Proof. vm_compute. reflexivity. Qed.
+
+Definition pair_eqb (a b : Z * Z) : bool := (fst a =? fst b) && (snd a =? snd b).
+
+Lemma fpga_values_distinct :
+  forallb (fun p => forallb (fun q => implb (pair_eqb (snd p) (snd q)) (key3_eqb (fst p) (fst q)))
+                            SPINN5_FPGA_LINKS) SPINN5_FPGA_LINKS = true.
+Proof. vm_compute. reflexivity. Qed.
+
+Lemma link_vector_Some : forall l v, link_vector l = Some v -> 0 <= l <= 5.
+Proof.
+  intros l v. unfold link_vector.
+  destruct (l =? 0) eqn:E0; [lia|]. destruct (l =? 1) eqn:E1; [lia|].
+  destruct (l =? 2) eqn:E2; [lia|]. destruct (l =? 3) eqn:E3; [lia|].
+  destruct (l =? 4) eqn:E4; [lia|]. destruct (l =? 5) eqn:E5; [lia|]. discriminate.
+Qed.
+
+Lemma fpga_link_model : forall x y l rx ry,
+  spinn5_fpga_link x y l rx ry =
+  Ok (fpga_get (x - fst (plane_eth (rx, ry) (x, y)), y - snd (plane_eth (rx, ry) (x, y)), l)
+               SPINN5_FPGA_LINKS).
+Proof.
+  intros x y l rx ry. unfold spinn5_fpga_link. rewrite chip_coord_model. reflexivity.
+Qed.
+
+Lemma fpga_get_outside_links : forall bx by_ l, ~ (0 <= l <= 5) ->
+  fpga_get (bx, by_, l) SPINN5_FPGA_LINKS = None.
+Proof.
+  intros bx by_ l Hl. destruct (fpga_get (bx, by_, l) SPINN5_FPGA_LINKS) as [v|] eqn:E; [|reflexivity].
+  apply fpga_get_Some_In in E. pose proof fpga_keys_are_links as H. rewrite forallb_forall in H.
+  specialize (H _ E). cbn [fst] in H. apply andb_true_iff in H. destruct H as [H1 H2].
+  apply Z.leb_le in H1. apply Z.leb_le in H2. lia.
+Qed.
+
+Theorem fpga_link_iff_leaves_board : forall x y l rx ry e,
+  board_eth (rx, ry) (x, y) e ->
+  exists r, spinn5_fpga_link x y l rx ry = Ok r /\
+            (r <> None <-> link_leaves_board e (x, y) l).
+Proof.
+  intros x y l rx ry e He. rewrite fpga_link_model.
+  pose proof (board_eth_is_plane_eth _ _ _ He) as Hp. rewrite <- Hp.
+  destruct He as [_ Hb]. destruct e as [ex ey]. unfold on_board in Hb. cbn [fst snd] in *.
+  eexists; split; [reflexivity|].
+  set (bx := x - ex) in *. set (by_ := y - ey) in *.
+  destruct (board_shape_bound _ _ Hb) as [Hbx Hby].
+  unfold link_leaves_board. cbn [fst snd].
+  destruct (link_vector l) as [[vx vy]|] eqn:Ev.
+  - (* a real link: read the finite table fact *)
+    pose proof (link_vector_Some _ _ Ev) as Hl.
+    pose proof fpga_cells_ok as H. rewrite forallb_forall in H.
+    assert (Hix : In bx (zseq 8)) by (apply In_zseq; lia). specialize (H bx Hix).
+    rewrite forallb_forall in H.
+    assert (Hiy : In by_ (zseq 8)) by (apply In_zseq; lia). specialize (H by_ Hiy).
+    apply board_shapeb_spec in Hb. rewrite Hb in H. cbn [implb] in H.
+    rewrite forallb_forall in H.
+    assert (Hil : In l (zseq 6)) by (apply In_zseq; lia). specialize (H l Hil).
+    unfold fpga_cellb in H. rewrite Ev in H. apply Bool.eqb_prop in H.
+    assert (Hshape : board_shapeb (bx + vx) (by_ + vy) = true <->
+                     board_shape (x + vx - ex) (y + vy - ey)).
+    { rewrite board_shapeb_spec. unfold bx, by_.
+      replace (x - ex + vx) with (x + vx - ex) by ring. replace (y - ey + vy) with (y + vy - ey) by ring.
+      tauto. }
+    split.
+    + intros Hr. exists (vx, vy). split; [reflexivity|]. cbn [fst snd]. unfold on_board. cbn [fst snd].
+      intros Hon. apply Hshape in Hon. rewrite Hon in H. cbn [negb] in H.
+      destruct (fpga_get (bx, by_, l) SPINN5_FPGA_LINKS); [discriminate H | apply Hr; reflexivity].
+    + intros (v & Hv & Hn). injection Hv as <-. cbn [fst snd] in Hn. unfold on_board in Hn. cbn [fst snd] in Hn.
+      intros Hr. rewrite Hr in H. cbn [is_some] in H.
+      destruct (board_shapeb (bx + vx) (by_ + vy)) eqn:Es; [|discriminate H].
+      apply Hn. apply Hshape. reflexivity.
+  - (* not a link number: no entry, and nothing leaves *)
+    assert (Hl : ~ (0 <= l <= 5)).
+    { intros Hl. unfold link_vector in Ev.
+      destruct (l =? 0) eqn:E0; [discriminate|]. destruct (l =? 1) eqn:E1; [discriminate|].
+      destruct (l =? 2) eqn:E2; [discriminate|]. destruct (l =? 3) eqn:E3; [discriminate|].
+      destruct (l =? 4) eqn:E4; [discriminate|]. destruct (l =? 5) eqn:E5; [discriminate|]. lia. }
+    rewrite (fpga_get_outside_links _ _ _ Hl). split; [intros H; contradiction|].
+    intros (v & Hv & _). discriminate Hv.
+Qed.
+
+Lemma Ok_inj : forall {A} (a b : A), Ok a = Ok b -> a = b.
+Proof. intros A a b H. injection H. auto. Qed.
+
+Lemma fpga_table_injective : forall k1 k2 v, In (k1, v) SPINN5_FPGA_LINKS -> In (k2, v) SPINN5_FPGA_LINKS -> k1 = k2.
+Proof.
+  intros k1 k2 v H1 H2. pose proof fpga_values_distinct as H. rewrite forallb_forall in H.
+  specialize (H _ H1). rewrite forallb_forall in H. specialize (H _ H2). cbn [fst snd] in H.
+  assert (Hv : pair_eqb v v = true) by (unfold pair_eqb; rewrite !Z.eqb_refl; reflexivity).
+  rewrite Hv in H. cbn [implb] in H. apply key3_eqb_eq. exact H.
+Qed.
+
+Theorem fpga_link_injective : forall x1 y1 l1 x2 y2 l2 rx ry f,
+  spinn5_fpga_link x1 y1 l1 rx ry = Ok (Some f) -> spinn5_fpga_link x2 y2 l2 rx ry = Ok (Some f) ->
+  spinn5_chip_coord x1 y1 rx ry = spinn5_chip_coord x2 y2 rx ry /\ l1 = l2.
+Proof.
+  intros x1 y1 l1 x2 y2 l2 rx ry f H1 H2. rewrite fpga_link_model in H1, H2.
+  apply Ok_inj in H1. apply Ok_inj in H2.
+  apply fpga_get_Some_In in H1. apply fpga_get_Some_In in H2.
+  pose proof (fpga_table_injective _ _ _ H1 H2) as Hk.
+  pose proof (f_equal (fun k : Z * Z * Z => fst (fst k)) Hk) as Hx.
+  pose proof (f_equal (fun k : Z * Z * Z => snd (fst k)) Hk) as Hy.
+  pose proof (f_equal (fun k : Z * Z * Z => snd k) Hk) as Hl. cbn [fst snd] in Hx, Hy, Hl.
+  split; [|exact Hl]. rewrite !chip_coord_model. rewrite Hx, Hy. reflexivity.
+Qed.
+
+Theorem fpga_link_distinct_on_board : forall x1 y1 l1 x2 y2 l2 rx ry e f,
+  board_eth (rx, ry) (x1, y1) e -> board_eth (rx, ry) (x2, y2) e ->
+  spinn5_fpga_link x1 y1 l1 rx ry = Ok (Some f) -> spinn5_fpga_link x2 y2 l2 rx ry = Ok (Some f) ->
+  (x1, y1, l1) = (x2, y2, l2).
+Proof.
+  intros x1 y1 l1 x2 y2 l2 rx ry e f He1 He2 H1 H2.
+  destruct (fpga_link_injective _ _ _ _ _ _ _ _ _ H1 H2) as [Hc ->].
+  rewrite (chip_coord_is_offset _ _ _ _ _ He1), (chip_coord_is_offset _ _ _ _ _ He2) in Hc.
+  injection Hc as Hx Hy. f_equal. f_equal; lia.
+Qed.
+
+(* rig's own Links enumeration and Links.to_vector agree with the hardware numbering of the Spec *)
+Lemma links_agree :
+  Links_all = [0; 1; 2; 3; 4; 5] /\
+  map (fun p => (fst p, Some (snd p))) Links_to_vector = map (fun l => (l, link_vector l)) Links_all.
+Proof. split; reflexivity. Qed.
+
+
+(* ------------------------------------------------------------------ standard_system_dimensions *)
+(* the downward loop finds the largest divisor of k not above s *)
+Lemma first_factor_down_spec : forall k s, (1 <= s)%nat ->
+  exists hh, first_factor_down k s = Some hh /\ 1 <= hh <= Z.of_nat s /\ k mod hh = 0 /\
+             forall j, hh < j <= Z.of_nat s -> k mod j <> 0.
+Proof.
+  intros k s. induction s as [|s IH]; intros Hs; [lia|].
+  cbn [first_factor_down].
+  destruct (k mod Z.of_nat (S s) =? 0) eqn:E.
+  - apply Z.eqb_eq in E. exists (Z.of_nat (S s)). split; [reflexivity|]. split; [lia|]. split; [exact E|].
+    intros j Hj. lia.
+  - apply Z.eqb_neq in E. destruct s as [|s'].
+    + (* s = 0: the last candidate is 1, which divides everything *)
+      exfalso. apply E. change (Z.of_nat 1) with 1. apply Z.mod_1_r.
+    + destruct IH as (hh & Hf & Hr & Hm & Hmax); [lia|].
+      exists hh. split; [exact Hf|]. split; [lia|]. split; [exact Hm|].
+      intros j Hj. destruct (Z.eq_dec j (Z.of_nat (S (S s')))) as [-> | Hne]; [exact E|].
+      apply Hmax. lia.
+Qed.
+
+Theorem standard_dims_squarest : forall n k, 1 <= k -> n = 3 * k ->
+  exists a b, standard_system_dimensions n = Ok (a * 12, b * 12) /\ squarest k a b.
+Proof.
+  intros n k Hk ->. unfold standard_system_dimensions.
+  destruct (3 * k =? 0) eqn:E0; [apply Z.eqb_eq in E0; lia|].
+  destruct (3 * k =? 1) eqn:E1; [apply Z.eqb_eq in E1; lia|].
+  replace (3 * k) with (k * 3) by ring. rewrite Z.mod_mul by lia. rewrite Z.div_mul by lia.
+  cbn [Z.eqb negb].
+  destruct (k <? 0) eqn:Ek; [apply Z.ltb_lt in Ek; lia|].
+  unfold float_isqrt.
+  pose proof (Z.sqrt_spec k ltac:(lia)) as Hsq. cbv zeta in Hsq.
+  set (s := Z.sqrt k) in *.
+  assert (Hs1 : 1 <= s) by (assert (0 < s) by (apply Z.sqrt_pos; lia); lia).
+  destruct (first_factor_down_spec k (Z.to_nat s)) as (b & Hf & Hb & Hm & Hmax); [lia|].
+  rewrite Z2Nat.id in Hb, Hmax by lia.
+  rewrite Hf. exists (k / b), b. split; [reflexivity|].
+  assert (Hab : k / b * b = k).
+  { pose proof (Z_div_mod_eq_full k b) as Hd. rewrite Hm in Hd. lia. }
+  set (a := k / b) in *.
+  assert (Hba : b <= a) by nia.
+  unfold squarest. split; [exact Hab|]. split; [lia|].
+  intros a' b' Hk' Hb'.
+  assert (Hb's : b' <= s) by nia.
+  assert (Hdiv : k mod b' = 0) by (rewrite <- Hk'; apply Z.mod_mul; lia).
+  assert (Hb'b : b' <= b).
+  { destruct (Z_le_gt_dec b' b) as [Hle | Hgt]; [exact Hle|].
+    exfalso. apply (Hmax b'); [lia | exact Hdiv]. }
+  assert (Ha'a : a <= a') by nia.
+  lia.
+Qed.
+
+Theorem standard_dims_special : 
+  standard_system_dimensions 0 = Ok (0, 0) /\ standard_system_dimensions 1 = Ok (8, 8).
+Proof. split; reflexivity. Qed.
+
+Theorem standard_dims_error : forall n, n <> 0 -> n <> 1 -> n mod 3 <> 0 \/ n < 0 ->
+  standard_system_dimensions n = Failed 0.
+Proof.
+  intros n H0 H1 H. unfold standard_system_dimensions.
+  destruct (n =? 0) eqn:E0; [apply Z.eqb_eq in E0; contradiction|].
+  destruct (n =? 1) eqn:E1; [apply Z.eqb_eq in E1; contradiction|].
+  destruct (n mod 3 =? 0) eqn:E3; [|reflexivity]. cbn [negb].
+  apply Z.eqb_eq in E3. destruct H as [H | H]; [contradiction|].
+  assert (Hk : n / 3 < 0) by (apply Z.div_lt_upper_bound; lia).
+  apply Z.ltb_lt in Hk. rewrite Hk. reflexivity.
+Qed.
+
+(* ------------------------------------------------------------------ instances (non-vacuity) *)
+Lemma ex_board_eth : board_eth (3, 5) (10, 9) (3, 5).
+Proof.
+  split.
+  - exists 0, 0, (0, 0). split; [left; reflexivity|]. cbn [fst snd]. lia.
+  - unfold on_board, board_shape. cbn [fst snd]. lia.
+Qed.
+
+Lemma ex_torus :
+  full_torus 24 12 /\ in_machine 24 12 (4, 2) /\ board_eth (3, 5) (4, 2) (-1, -3) /\
+  spinn5_local_eth_coord 4 2 24 12 3 5 = Ok (23, 9) /\ spinn5_chip_coord 4 2 3 5 = Ok (5, 5).
+Proof.
+  split; [unfold full_torus; repeat split; reflexivity|].
+  split; [unfold in_machine; cbn [fst snd]; lia|].
+  split; [|split; reflexivity].
+  split.
+  - exists (-1), (-1), (8, 4). split; [right; right; left; reflexivity|]. cbn [fst snd]. lia.
+  - unfold on_board, board_shape. cbn [fst snd]. lia.
+Qed.
+
+Lemma ex_links :
+  link_leaves_board (0, 0) (0, 0) 3 /\ spinn5_fpga_link 0 0 3 0 0 = Ok (Some (1, 1)) /\
+  ~ link_leaves_board (0, 0) (0, 0) 0 /\ spinn5_fpga_link 0 0 0 0 0 = Ok None.
+Proof.
+  split; [|split; [reflexivity|split; [|reflexivity]]].
+  - exists (-1, 0). split; [reflexivity|]. unfold on_board, board_shape. cbn [fst snd]. lia.
+  - intros (v & Hv & Hn). injection Hv as <-. apply Hn. unfold on_board, board_shape. cbn [fst snd]. lia.
+Qed.
+
+Lemma ex_dims : standard_system_dimensions 18 = Ok (36, 24) /\ squarest 6 3 2.
+Proof.
+  split; [reflexivity|]. unfold squarest. split; [reflexivity|]. split; [lia|].
+  intros a' b' Hk Hb.
+  assert (Hb2 : b' <= 2) by nia.
+  assert (Hc : b' = 1 \/ b' = 2) by lia.
+  destruct Hc as [-> | ->]; lia.
+Qed.
